@@ -26,8 +26,14 @@ func (x *Exec) Agreement() *vcore.Failure {
 	for ip := range conf {
 		m, inMem := alloc[ip]
 		s, inStore := store[ip]
-		if _, free := unalloc[ip]; !free && !inMem {
+		u, free := unalloc[ip]
+		if !free && !inMem {
 			return vcore.Failf("c05:missing", "configured IP %s is in neither table", ip)
+		}
+		if free && !inMem && u.Key != "" {
+			// ByIP and ByPrefix answer from this entry too: a free IP that reports an owner is a disagreement with the store
+			return vcore.Failf("c05:free_with_key", "IP %s is in the free table (FloatingIP object exists: %v) but the IPAM reports it with key %q pod uid %q", ip, inStore,
+				u.Key, u.PodUid)
 		}
 		if pendingAdd[ip] || pendingDel[ip] {
 			continue // an administrator's reservation whose watch event has not been delivered yet
